@@ -63,6 +63,31 @@ def allowed_units(m, S):
     return (roots - replaced) | new, new
 
 
+_STRESS = {}
+
+
+def chain_stress(m, spelling):
+    """sum over the whole definition chain of |exponent * log10(scale)| for one spelling: how far
+    pint's running float product can wander from 1 (DESIGN 8.3, float range)."""
+    import math
+    key = (id(m), spelling)
+    if key not in _STRESS:
+        _STRESS[key] = 0.0
+        try:
+            pc, c = m.resolve(spelling[6:] if spelling.startswith("delta_") else spelling)
+            r = abs(math.log10(abs(float(F(m.prefixes[pc]["value"]))))) if pc else 0.0
+            u = m.units[c]
+            if not u["is_base"]:
+                sc = abs(u["scale"].f())
+                r += abs(math.log10(sc)) if sc > 0 else 400.0
+                for ref, e in u["ref"].items():
+                    r += abs(float(e)) * chain_stress(m, ref)
+        except Exception:  # noqa: BLE001
+            r = 400.0
+        _STRESS[key] = r
+    return _STRESS[key]
+
+
 def check_base(rec, m, ureg, S, src: dict, f, units, tag, via):
     """f, units = real answer for `src` ({spelling: exp}) under system S."""
     allowed, _ = allowed_units(m, S)
@@ -91,7 +116,12 @@ def check_base(rec, m, ureg, S, src: dict, f, units, tag, via):
             rec.violation("value-changed", dict(w, model_src=str(mf.v), model_dst=str(rf.v)), **fields)
     else:
         lhs, rhs = float(f) * rf.f(), mf.f()
-        if abs(lhs - rhs) > 1e-9 * abs(rhs):
+        stress = sum(abs(float(e)) * chain_stress(m, n) for d in (src, names) for n, e in d.items())
+        if stress > 290:
+            # planck_length ** -6 * planck_time ** 4 ...: the partial products of the float factor
+            # go denormal although the final factor is representable (5e-5 error seen at 1e-383)
+            rec.count("numeric_range_skipped")
+        elif abs(lhs - rhs) > 1e-9 * abs(rhs):
             rec.violation("value-changed", dict(w, lhs=lhs, rhs=rhs, tainted=True), **fields)
     if exact is False and mf.exact and rf.exact:
         rec.violation("float-contamination", w, **fields)
